@@ -67,6 +67,49 @@ theorem discard_chunk_independent (pre tail : List Byte) (hpre : LF ∉ pre) (cu
         = (.err .e2big, inn', src') ∧ inn' ++ src'.rest = tail :=
   loopLong_spec pre tail hpre _ _ rfl (Nat.lt_succ_self _)
 
+/-! ### DATA phase (qsmtpd/data.c over the reader) -/
+
+open QsmtpModel.DataFraming in
+/-- **A malformed payload is never queued**: for every stream, every look-ahead state and every cut
+schedule, if the DATA phase ends in "queued" then the reader reported no error at all on the way
+(no bare CR, no bare LF, no over-long line). -/
+theorem malformed_never_queued (fuel : Nat) (inn : List Byte) (src : Src)
+    (h : (dataPhase inn src false [] 0 false none fuel).verdict = .queued) :
+    (dataPhase inn src false [] 0 false none fuel).errors = 0 :=
+  (dataPhase_queued fuel inn src false [] 0 false none h).2
+
+open QsmtpModel.DataFraming in
+/-- **Legal payloads are queued as sent, whatever the segmentation**: lines without CR/LF of at most
+999 octets followed by `.` CRLF are queued exactly (the dot line ends the data, nothing behind it
+is touched), for every cut schedule. -/
+theorem legal_payload_queued_exactly (ls : List (List Byte)) (hwf : ∀ l ∈ ls, WfLine l) (hnd : ∀ l ∈ ls, l ≠ [DOT])
+    (tail : List Byte) (cuts : List Nat) (fuel : Nat) (hf : ls.length < fuel) :
+    ∃ inn' src', dataPhase [] { rest := wire (ls ++ [[DOT]]) ++ tail, cuts := cuts } false [] 0 false none fuel =
+        { verdict := .queued, lines := ls, inn := inn', src := src', errors := 0, firstErr := none,
+          termAfterError := false }
+      ∧ inn' ++ src'.rest = tail := by
+  obtain ⟨inn', src', h, ht⟩ := dataPhase_wf ls hwf hnd tail fuel [] { rest := wire (ls ++ [[DOT]]) ++ tail, cuts := cuts }
+    [] none false (by simp) hf
+  refine ⟨inn', src', ?_, ht⟩
+  rw [h]; simp
+
+open QsmtpModel.DataFraming in
+/-- **As given (last sentence of the property):** the end of data is never taken from the tail of a
+malformed line. -/
+def terminator_only_at_crlf_dot_crlf_full : Prop :=
+  ∀ (s : List Byte) (cuts : List Nat),
+    (dataPhase [] { rest := s, cuts := cuts } false [] 0 false none (2 * s.length + 4)).termAfterError = false
+
+open QsmtpModel.DataFraming in
+/-- The code does not have that property: `x LF . CRLF` — the reader resynchronises behind the bare
+LF (pinned by tests/netio_test.c) and hands out `.` as a line, which ends the drain of the refused
+message; what follows is read as commands.  Recorded as known finding c05-terminator-after-stray-eol. -/
+theorem terminator_only_at_crlf_dot_crlf_counterexample : ¬ terminator_only_at_crlf_dot_crlf_full := by
+  intro h
+  have := h [120, 10, 46, 13, 10] []
+  revert this
+  decide
+
 /-- Non-vacuity: "a", "." are well-formed lines; the model reads `a CRLF . CRLF` cut after every byte. -/
 example : WfLine [97] ∧ WfLine [46] := by
   refine ⟨⟨by decide, by decide, by decide⟩, ⟨by decide, by decide, by decide⟩⟩
